@@ -216,9 +216,29 @@ pub fn run_pipeline_case(
     run::reset_hash_seeds(sched.seed);
     let s: &Scenario = scenario;
     let fclass = fault_class(s);
-    let policy_on = s.grevm.forbid_delegated_create || s.grevm.reserve_delegated_balance;
+    // The delegated-safety policies are inert before Prague (stock revm stays the reference). With the
+    // reserve policy alone the reference is the independent rule model (reservemodel.rs); with the
+    // CREATE guard on there is no reference for data (path agreement decides, see run_relation_case).
+    let prague = s.evm.spec >= revm_primitives::hardfork::SpecId::PRAGUE;
+    let guard_on = s.grevm.forbid_delegated_create && prague;
+    let reserve_model = s.grevm.reserve_delegated_balance && prague && !guard_on;
     let precompile_log_ref = Arc::new(PrecompileLog::default());
     let pcs_ref = precompiles::build(&s.precompiles, &precompile_log_ref);
+    let model_stats = std::cell::RefCell::new((0u64, 0u64, false));
+    let run_ref = |state: &mut reference::RefState<'_>, block: &crate::scenario::BlockSpec, txs: &[crate::scenario::TxSpec], count: bool| -> RefBlock {
+        if reserve_model {
+            let r = crate::reservemodel::run_reserve_model_block(state, &s.evm, block, txs, &pcs_ref, true);
+            let mut m = model_stats.borrow_mut();
+            if count {
+                m.0 += r.violations.len() as u64;
+                m.1 += r.debit_txs;
+            }
+            m.2 |= r.undecided;
+            r.block
+        } else {
+            reference::run_reference_block(state, &s.evm, block, txs, &pcs_ref, true)
+        }
+    };
 
     // ---------------- reference (outside the simulator, fresh database instance)
     // The main reference is always fault-free: data (outcomes, deltas, bundle) is right iff it equals
@@ -230,24 +250,38 @@ pub fn run_pipeline_case(
     // Both paths load the fee recipient up front (the property text of C04 defines that as the
     // reference; the sequential path does so since the C06 fix).
     let _ = &first_entry;
-    let preload = true;
-    let ref_first = reference::run_reference_block(&mut ref_state, &s.evm, &s.block, &s.txs, &pcs_ref, preload);
+    let ref_first = run_ref(&mut ref_state, &s.block, &s.txs, true);
     let mut ref_second = None;
     if ref_first.error.is_none() &&
         let Some((block2, txs2)) = &s.second
     {
         ref_state.merge_transitions(BundleRetention::Reverts);
-        ref_second = Some(reference::run_reference_block(&mut ref_state, &s.evm, block2, txs2, &pcs_ref, true));
+        ref_second = Some(run_ref(&mut ref_state, block2, txs2, true));
     }
     let ref_bundle = reference::take_ref_bundle(&mut ref_state, want.retention());
-    let workload_probes = workload_reach(&ref_first, &ref_bundle, &precompile_log_ref);
+    let mut workload_probes = workload_reach(&ref_first, &ref_bundle, &precompile_log_ref);
     let faulty = (fclass == FaultClass::PersistentErrors).then(|| {
         let db_f = SimDb::from_scenario(s, true, false);
         let mut st_f = reference::new_ref_state(&db_f, s.bundle_update);
-        let block_f = reference::run_reference_block(&mut st_f, &s.evm, &s.block, &s.txs, &pcs_ref, preload);
+        let block_f = run_ref(&mut st_f, &s.block, &s.txs, false);
         let bundle_f = reference::take_ref_bundle(&mut st_f, want.retention());
         (block_f, bundle_f)
     });
+    // no reference for data: CREATE guard on, or a block the rule model cannot decide
+    let policy_on = guard_on || (reserve_model && model_stats.borrow().2);
+    if reserve_model {
+        let m = model_stats.borrow();
+        workload_probes.push(("probe.reserve_model_blocks", 1));
+        if m.0 > 0 {
+            workload_probes.push(("probe.reserve_model_charged_reverts", m.0));
+        }
+        if m.1 > 0 {
+            workload_probes.push(("probe.reserve_model_txs_with_delegated_debits", m.1));
+        }
+        if m.2 {
+            workload_probes.push(("probe.reserve_model_undecided_blocks", 1));
+        }
+    }
     let expected_first = Arc::new(ref_first.steps.clone());
     let expected_second = ref_second.as_ref().map(|b| Arc::new(b.steps.clone()));
 
@@ -434,7 +468,7 @@ pub fn run_pipeline_case(
                     let prefix_bundle = |k: usize| {
                         let db_k = SimDb::from_scenario(s, false, false);
                         let mut st_k = reference::new_ref_state(&db_k, s.bundle_update);
-                        let _ = reference::run_reference_block(&mut st_k, &s.evm, &s.block, &s.txs[..k.min(s.txs.len())], &pcs_ref, true);
+                        let _ = run_ref(&mut st_k, &s.block, &s.txs[..k.min(s.txs.len())], false);
                         reference::take_ref_bundle(&mut st_k, want.retention())
                     };
                     let clean_exp = outcomes_of(&ref_first);
